@@ -173,6 +173,9 @@ async fn run_inner(certs: &Certs, c: &Case) -> Outcome {
                 let dl = Instant::now() + Duration::from_secs(20);
                 let mut anchored: Option<Vec<u8>> = None;
                 if c.big_feed {
+                    // let the client's endpoint notice the close first: the point is that the
+                    // loss is then first met by poll_ready, not by a flush
+                    tokio::time::sleep(Duration::from_millis(40)).await;
                     let mut failed = None;
                     for _ in 0..2 {
                         seq += 1;
